@@ -43,6 +43,10 @@ def run(repo: Repo, rep, tier: str):
     defaults(repo, rep, "C09")
     constructor_overrides(repo, rep, "C09")
     c13.meta_rules(repo, rep, "C09")
+    # strict mode is only "the default" if nothing leaves the process-wide flag lenient
+    from . import c18
+    c18.single_writer(repo, rep, "C09")
+    c18.restore_rule(repo, rep, "C09")
 
 
 # ------------------------------------------------------------------------------------ R1
